@@ -168,6 +168,7 @@ class Grid3Scales(Grid):
         self.tailLengthInside = tailLengthInside
         self.tailLengthOutside = tailLengthOutside
         self.wallThickness = wallThickness
+        self.positionFalloff = wallThickness
         self.ratioPointsWall = ratioPointsWall
         self.smoothing = smoothing
         self.wallCenter = wallCenter
@@ -194,6 +195,49 @@ class Grid3Scales(Grid):
         ) / abs(
             2 * ratioPointsWall * tailLengthOutside - wallThickness * (1 + 2 * smoothing)
         )
+
+    def compactify(
+            self,
+            z: np.ndarray, # pylint: disable=invalid-name
+            pz: np.ndarray, # pylint: disable=invalid-name
+            pp: np.ndarray, # pylint: disable=invalid-name
+            ) -> tuple[np.ndarray, ...]:
+        r"""
+        Transforms coordinates to [-1, 1] interval (inverse of decompactify).
+
+        The three-scale position map has no closed-form inverse, so it is inverted
+        numerically with a bracketed Newton iteration (the map is strictly
+        increasing, so the root is unique).
+        """
+        zArray = np.asarray(z, dtype=float)
+        target = np.atleast_1d(zArray).astype(float).ravel()
+        lower = np.full(target.shape, -1.0)
+        upper = np.full(target.shape, 1.0)
+        chi = np.zeros(target.shape)
+        zeros = np.zeros(target.shape)
+        active = np.isfinite(target)
+        for _ in range(200):
+            if not np.any(active):
+                break
+            residual = self.decompactify(chi, zeros, zeros)[0] - target
+            slope = self.compactificationDerivatives(chi, zeros, zeros)[0]
+            lower = np.where(active & (residual < 0), chi, lower)
+            upper = np.where(active & (residual > 0), chi, upper)
+            with np.errstate(all="ignore"):
+                newton = chi - residual / slope
+            inside = np.isfinite(newton) & (newton > lower) & (newton < upper)
+            newChi = np.where(inside, newton, (lower + upper) / 2)
+            newChi = np.where(active, newChi, chi)
+            active = active & (residual != 0) & (newChi != chi)
+            chi = newChi
+        chi = np.where(np.isposinf(target), 1.0, chi)
+        chi = np.where(np.isneginf(target), -1.0, chi)
+        chi = np.where(np.isnan(target), np.nan, chi)
+        zCompact = chi.reshape(zArray.shape)
+
+        pzCompact = np.tanh(pz / 2 / self.momentumFalloffT)
+        ppCompact = 1 - 2 * np.exp(-pp / self.momentumFalloffT)
+        return zCompact, pzCompact, ppCompact
 
     def decompactify(
             self,
